@@ -1,5 +1,497 @@
-(* C13P.v — proofs for C13 *)
-From DV Require Import Run_C13.
+(* C13P.v — proofs for C13 (writes are atomic, durable once acknowledged, log repairable) *)
+From DV Require Import Run_C13 WriterP.
+From Coq Require Import Lia.
 
+(* ------------------------------------------------------------------ obligations on the generated skeleton *)
 Lemma code_skeleton_ok : sk_ok code_skeleton = true.
 Proof. vm_compute. reflexivity. Qed.
+Lemma code_points_complete : points_complete code_skeleton = true.
+Proof. vm_compute. reflexivity. Qed.
+(* K1, as the code is: a failure of daily_log.write or of COMMIT leaves through `?` without ROLLBACK *)
+Lemma code_no_rollback_after_marks_or_commit :
+  sk_marks_rollback code_skeleton = false /\ sk_commit_rollback code_skeleton = false.
+Proof. vm_compute. split; reflexivity. Qed.
+
+(* ------------------------------------------------------------------ the arm table *)
+Lemma kind_code_inj : forall a b, kind_code a = kind_code b -> a = b.
+Proof. intros a b H. destruct a; destruct b; try reflexivity; vm_compute in H; discriminate. Qed.
+Lemma kind_eqb_eq : forall a b, kind_eqb a b = true <-> a = b.
+Proof.
+  intros a b. unfold kind_eqb. rewrite N.eqb_eq. split; [apply kind_code_inj|intros; subst; reflexivity].
+Qed.
+Lemma arm_of_some : forall sk k a, arm_of sk k = Some a -> In a (sk_arms sk) /\ a_kind a = k.
+Proof.
+  intros sk k a H. unfold arm_of in H. apply find_some in H. destruct H as [H1 H2].
+  split; [exact H1|apply kind_eqb_eq; exact H2].
+Qed.
+Lemma find_code : forall (l : list arm) k, In (kind_code k) (map (fun a => kind_code (a_kind a)) l) ->
+  exists a, find (fun a => kind_eqb (a_kind a) k) l = Some a.
+Proof.
+  induction l as [|a l IH]; intros k H; cbn [map In find] in *; [contradiction|].
+  destruct (kind_eqb (a_kind a) k) eqn:E; [eauto|].
+  destruct H as [H|H]; [|apply IH; exact H].
+  unfold kind_eqb in E. rewrite H, N.eqb_refl in E. discriminate.
+Qed.
+Lemma list_eqb_N_eq : forall l1 l2 : list N, list_eqb N.eqb l1 l2 = true -> l1 = l2.
+Proof.
+  induction l1 as [|x t IH]; intros [|y u] H; cbn [list_eqb] in H; try discriminate; auto.
+  apply andb_true_iff in H. destruct H as [H1 H2]. apply N.eqb_eq in H1. f_equal; auto.
+Qed.
+Lemma arm_of_total : forall sk k, arms_complete sk = true -> exists a, arm_of sk k = Some a.
+Proof.
+  intros sk k H. unfold arms_complete in H. apply list_eqb_N_eq in H. unfold arm_of.
+  apply find_code. rewrite H. destruct k; vm_compute; tauto.
+Qed.
+
+Record arm_good (a : arm) : Prop := {
+  ag_pol_ok : a_ok_pol a = true;
+  ag_pol_err : a_err_pol a = true;
+  ag_route : route_code (a_ok a) = route_code (a_err a);
+  ag_fallible : a_kind a <> KOptimize -> a_fallible a = true;
+  ag_quiet : a_kind a = KCompute \/ a_kind a = KOptimize -> a_ok a = RDb \/ a_ok a = RNone
+}.
+Lemma sk_ok_arm : forall sk k, sk_ok sk = true -> exists a, arm_of sk k = Some a /\ a_kind a = k /\ arm_good a.
+Proof.
+  intros sk k H. unfold sk_ok in H.
+  apply andb_true_iff in H. destruct H as [H Hroutes].
+  apply andb_true_iff in H. destruct H as [H Hfall].
+  apply andb_true_iff in H. destruct H as [H Hack].
+  apply andb_true_iff in H. destruct H as [H Hrb].
+  apply andb_true_iff in H. destruct H as [Hshape Hcomplete].
+  destruct (arm_of_total sk k Hcomplete) as [a Ha]. exists a.
+  destruct (arm_of_some _ _ _ Ha) as [Hin Hk]. split; [exact Ha|split; [exact Hk|]].
+  unfold arms_ack in Hack. unfold arms_fallible in Hfall. unfold arms_routes in Hroutes.
+  rewrite forallb_forall in Hack, Hfall, Hroutes.
+  specialize (Hack a Hin). specialize (Hfall a Hin). specialize (Hroutes a Hin).
+  apply andb_true_iff in Hack. destruct Hack as [Hack Hr].
+  apply andb_true_iff in Hack. destruct Hack as [Hp1 Hp2].
+  constructor; auto.
+  - apply N.eqb_eq. exact Hr.
+  - intros Hn. apply orb_true_iff in Hfall. destruct Hfall as [Hf|Hf]; [exact Hf|].
+    apply kind_eqb_eq in Hf. contradiction.
+  - intros Hq. destruct Hq as [Hq|Hq]; rewrite Hq in Hroutes; destruct (a_ok a); try discriminate; auto.
+Qed.
+
+(* ------------------------------------------------------------------ lists without repetition *)
+Lemma NoDup_app_elim : forall A (l1 l2 : list A), NoDup (l1 ++ l2) ->
+  NoDup l1 /\ NoDup l2 /\ (forall x, In x l1 -> In x l2 -> False).
+Proof.
+  induction l1 as [|a l1 IH]; intros l2 H; cbn [app] in *.
+  - split; [constructor|split; [exact H|intros x []]].
+  - inversion H as [|? ? Hn Hnd]; subst. destruct (IH l2 Hnd) as [H1 [H2 H3]].
+    split; [constructor; [intros Hin; apply Hn; apply in_or_app; left; exact Hin|exact H1]|].
+    split; [exact H2|]. intros x [E|Hx] Hx2.
+    + subst. apply Hn. apply in_or_app. right. exact Hx2.
+    + eapply H3; eauto.
+Qed.
+Lemma NoDup_app_intro : forall A (l1 l2 : list A), NoDup l1 -> NoDup l2 ->
+  (forall x, In x l1 -> In x l2 -> False) -> NoDup (l1 ++ l2).
+Proof.
+  induction l1 as [|a l1 IH]; intros l2 H1 H2 H3; cbn [app]; [exact H2|].
+  inversion H1 as [|? ? Hn Hnd]; subst. constructor.
+  - intros Hin. apply in_app_or in Hin. destruct Hin as [Hin|Hin]; [contradiction|].
+    apply (H3 a); [left; reflexivity|exact Hin].
+  - apply IH; auto. intros x Hx Hx2. apply (H3 x); [right; exact Hx|exact Hx2].
+Qed.
+Lemma NoDup_map_in_inj : forall A B (f : A -> B) l a b,
+  NoDup (map f l) -> In a l -> In b l -> f a = f b -> a = b.
+Proof.
+  induction l as [|x l IH]; intros a b H Ha Hb E; cbn [map In] in *; [contradiction|].
+  inversion H as [|? ? Hn Hnd]; subst.
+  destruct Ha as [Ha|Ha]; destruct Hb as [Hb|Hb]; subst; auto.
+  - exfalso. apply Hn. rewrite E. apply in_map. exact Hb.
+  - exfalso. apply Hn. rewrite <- E. apply in_map. exact Ha.
+Qed.
+Lemma NoDup_flat_map_same : forall A B (F : A -> list B) l x y o,
+  NoDup (flat_map F l) -> In x l -> In y l -> In o (F x) -> In o (F y) -> x = y \/ False.
+Proof.
+  induction l as [|z l IH]; intros x y o H Hx Hy Hox Hoy; cbn [flat_map In] in *; [contradiction|].
+  apply NoDup_app_elim in H. destruct H as [H1 [H2 H3]].
+  destruct Hx as [Hx|Hx]; destruct Hy as [Hy|Hy]; subst.
+  - left. reflexivity.
+  - right. apply (H3 o Hox). apply in_flat_map. exists y. split; assumption.
+  - right. apply (H3 o Hoy). apply in_flat_map. exists x. split; assumption.
+  - eapply IH; eauto.
+Qed.
+Lemma nodup_keys_NoDup : forall l, nodup_keys l = true -> NoDup l.
+Proof.
+  induction l as [|k l IH]; intros H; cbn [nodup_keys] in H; [constructor|].
+  apply andb_true_iff in H. destruct H as [H1 H2]. constructor; [|apply IH; exact H2].
+  intros Hin. apply negb_true_iff in H1. assert (existsb (rkey_eqb k) l = true); [|congruence].
+  apply existsb_exists. exists k. split; [exact Hin|apply rkey_eqb_refl].
+Qed.
+Lemma flat_map_map : forall A B C (f : A -> B) (g : B -> list C) l, flat_map g (map f l) = flat_map (fun x => g (f x)) l.
+Proof. induction l; cbn [map flat_map]; congruence. Qed.
+
+(* ------------------------------------------------------------------ what a query sees *)
+Lemma reflected_data : forall d1 d2 o, data_eq d1 d2 -> reflected d1 o = reflected d2 o.
+Proof. intros d1 d2 o [H1 H2]. destruct o; cbn [reflected]; rewrite H1, ?H2; reflexivity. Qed.
+Lemma vis_data : forall d1 d2 r, data_eq d1 d2 -> vis d1 r = vis d2 r.
+Proof.
+  intros d1 d2 r H. unfold vis.
+  assert (forallb (reflected d1) (req_ops r) = forallb (reflected d2) (req_ops r)) as ->.
+  { induction (req_ops r); cbn [forallb]; [reflexivity|]. rewrite IHl, (reflected_data d1 d2) by exact H. reflexivity. }
+  assert (existsb (reflected d1) (req_ops r) = existsb (reflected d2) (req_ops r)) as ->; [|reflexivity].
+  induction (req_ops r); cbn [existsb]; [reflexivity|]. rewrite IHl, (reflected_data d1 d2) by exact H. reflexivity.
+Qed.
+Lemma reflected_apply_self : forall d o, reflected (apply_op d o) o = true.
+Proof.
+  intros d [c i v|c i]; cbn [apply_op reflected d_rows d_tombs].
+  - rewrite lookup_upd_eq. apply N.eqb_refl.
+  - rewrite lookup_remove_eq. cbn [existsb]. rewrite rkey_eqb_refl. reflexivity.
+Qed.
+Lemma reflected_apply_other : forall d o' o, op_key o' <> op_key o -> reflected (apply_op d o') o = reflected d o.
+Proof.
+  intros d o' o Hk.
+  assert (Hrows : lookup (op_key o) (d_rows (apply_op d o')) = lookup (op_key o) (d_rows d)).
+  { destruct o' as [c' i' v'|c' i']; cbn [apply_op d_rows op_key] in *.
+    - apply lookup_upd_neq. congruence.
+    - apply lookup_remove_neq. congruence. }
+  assert (Htombs : existsb (rkey_eqb (op_key o)) (d_tombs (apply_op d o')) = existsb (rkey_eqb (op_key o)) (d_tombs d)).
+  { destruct o' as [c' i' v'|c' i']; cbn [apply_op d_tombs op_key existsb] in *; [reflexivity|].
+    rewrite (rkey_eqb_neq (op_key o) (c', i')) by congruence. reflexivity. }
+  destruct o as [c i v|c i]; cbn [reflected op_key] in *; rewrite Hrows, ?Htombs; reflexivity.
+Qed.
+Lemma reflected_apply_ops_notin : forall L d o, ~ In (op_key o) (map op_key L) -> reflected (apply_ops d L) o = reflected d o.
+Proof.
+  induction L as [|o' L IH]; intros d o H; cbn [apply_ops fold_left map In] in *; [reflexivity|].
+  change (fold_left apply_op L (apply_op d o')) with (apply_ops (apply_op d o') L).
+  rewrite IH by tauto. apply reflected_apply_other. intros E. apply H. left. exact E.
+Qed.
+Lemma reflected_apply_ops_in : forall L d o, NoDup (map op_key L) -> In o L -> reflected (apply_ops d L) o = true.
+Proof.
+  induction L as [|o' L IH]; intros d o Hnd Hin; cbn [apply_ops fold_left map In] in *; [contradiction|].
+  change (fold_left apply_op L (apply_op d o')) with (apply_ops (apply_op d o') L).
+  inversion Hnd as [|? ? Hn Hnd']; subst. destruct Hin as [E|Hin].
+  - subst o'. rewrite reflected_apply_ops_notin by exact Hn. apply reflected_apply_self.
+  - apply IH; assumption.
+Qed.
+
+(* ------------------------------------------------------------------ visibility at the end of a run *)
+Definition quiet (q : req) : bool := match r_kind q with KCompute | KOptimize => true | _ => false end.
+
+Lemma eff_ops_cases : forall sk r, eff_ops sk r = req_ops r \/ eff_ops sk r = [].
+Proof.
+  intros sk r. unfold eff_ops. destruct (arm_of sk (r_kind r)) as [a|]; auto.
+  destruct (a_fallible a); auto. destruct (a_kind a); auto.
+Qed.
+Lemma eff_ops_full : forall sk r, sk_ok sk = true -> quiet r = false -> eff_ops sk r = req_ops r.
+Proof.
+  intros sk r Hok Hq. destruct (sk_ok_arm sk (r_kind r) Hok) as [a [Ha [Hk Hg]]].
+  unfold eff_ops. rewrite Ha. unfold quiet in Hq.
+  rewrite (ag_fallible a Hg) by (rewrite Hk; intros E; rewrite E in Hq; discriminate).
+  rewrite Hk. destruct (r_kind r); try reflexivity; discriminate.
+Qed.
+Lemma quiet_no_ops : forall r, req_shape r = true -> quiet r = true -> req_ops r = [].
+Proof.
+  intros r Hs Hq. unfold req_shape in Hs. unfold quiet in Hq.
+  destruct (r_kind r); try discriminate; destruct (req_ops r); auto; discriminate.
+Qed.
+Lemma loud_has_ops : forall r, req_shape r = true -> quiet r = false -> req_ops r <> [].
+Proof.
+  intros r Hs Hq. unfold req_shape in Hs. unfold quiet in Hq.
+  destruct (r_kind r); try discriminate; destruct (req_ops r); try discriminate; intros E; discriminate.
+Qed.
+
+Lemma in_flat_map_sel : forall A (F G : A -> list op) l o,
+  (forall x, G x = F x \/ G x = []) -> In o (flat_map G l) -> In o (flat_map F l).
+Proof.
+  intros A F G l o HG H. apply in_flat_map in H. destruct H as [x [Hx Ho]]. apply in_flat_map. exists x. split; [exact Hx|].
+  destruct (HG x) as [E|E]; rewrite E in Ho; [exact Ho|contradiction].
+Qed.
+Lemma NoDup_keys_sel : forall A (F G : A -> list op) l,
+  (forall x, G x = F x \/ G x = []) ->
+  NoDup (map op_key (flat_map F l)) -> NoDup (map op_key (flat_map G l)).
+Proof.
+  intros A F G l HG. induction l as [|x l IH]; intros H; cbn [flat_map] in *; [constructor|].
+  rewrite map_app in *. apply NoDup_app_elim in H. destruct H as [H1 [H2 H3]].
+  destruct (HG x) as [E|E]; rewrite E; cbn [map app]; [|apply IH; exact H2].
+  apply NoDup_app_intro; [exact H1|apply IH; exact H2|].
+  intros k Hk1 Hk2. apply (H3 k Hk1). apply in_map_iff in Hk2. destruct Hk2 as [o [Eo Ho]].
+  apply in_map_iff. exists o. split; [exact Eo|]. eapply in_flat_map_sel; eauto.
+Qed.
+
+Lemma vis_all : forall d r, (forall o, In o (req_ops r) -> reflected d o = true) -> vis d r = 1.
+Proof.
+  intros d r H. unfold vis. assert (forallb (reflected d) (req_ops r) = true) as ->; [|reflexivity].
+  apply forallb_forall. exact H.
+Qed.
+Lemma vis_none : forall d r, req_ops r <> [] -> (forall o, In o (req_ops r) -> reflected d o = false) -> vis d r = 0.
+Proof.
+  intros d r Hne H. unfold vis.
+  assert (forallb (reflected d) (req_ops r) = false) as ->.
+  { destruct (req_ops r) as [|o t]; [congruence|]. cbn [forallb]. rewrite (H o) by (left; reflexivity). reflexivity. }
+  assert (existsb (reflected d) (req_ops r) = false) as ->; [|reflexivity].
+  destruct (existsb (reflected d) (req_ops r)) eqn:E; [|reflexivity].
+  apply existsb_exists in E. destruct E as [o [Ho Hr]]. rewrite (H o Ho) in Hr. discriminate.
+Qed.
+
+Theorem vis_final : forall sk (items : list item) (unsent : list req) d0 d',
+  sk_ok sk = true ->
+  data_eq d' (apply_ops d0 (sel_ops sk items)) ->
+  NoDup (map op_key (flat_map req_ops (map it_req items ++ unsent))) ->
+  (forall o, In o (flat_map req_ops (map it_req items ++ unsent)) -> reflected d0 o = false) ->
+  (forall q, In q (map it_req items ++ unsent) -> req_shape q = true) ->
+  (forall x, In x items -> vis d' (it_req x) = if it_committed x || quiet (it_req x) then 1 else 0) /\
+  (forall q, In q unsent -> vis d' q = if quiet q then 1 else 0).
+Proof.
+  intros sk items unsent d0 d' Hok Hdata Hnd Hfresh Hshape.
+  set (F := fun x : item => req_ops (it_req x)).
+  set (G := fun x : item => if it_committed x then eff_ops sk (it_req x) else []).
+  assert (HG : forall x, G x = F x \/ G x = []).
+  { intros x. unfold G, F. destruct (it_committed x); [apply eff_ops_cases|right; reflexivity]. }
+  rewrite flat_map_app, flat_map_map in Hnd, Hfresh. fold F in Hnd, Hfresh.
+  set (A := flat_map F items) in *. set (U := flat_map req_ops unsent) in *.
+  assert (HL : sel_ops sk items = flat_map G items) by reflexivity.
+  pose proof (NoDup_map_inv _ _ Hnd) as HndAll.
+  pose proof Hnd as Hnd2. rewrite map_app in Hnd2. apply NoDup_app_elim in Hnd2. destruct Hnd2 as [HndA [HndU HdisjK]].
+  apply NoDup_app_elim in HndAll. destruct HndAll as [HA [HU Hdisj]].
+  assert (HndL : NoDup (map op_key (sel_ops sk items))).
+  { rewrite HL. eapply NoDup_keys_sel; [exact HG|exact HndA]. }
+  assert (HinL : forall o, In o (sel_ops sk items) -> exists y, In y items /\ it_committed y = true /\ In o (F y)).
+  { intros o Ho. rewrite HL in Ho. apply in_flat_map in Ho. destruct Ho as [y [Hy Hoy]]. exists y. unfold G in Hoy.
+    destruct (it_committed y) eqn:Ec; [|contradiction]. split; [exact Hy|split; [reflexivity|]].
+    unfold F. destruct (eff_ops_cases sk (it_req y)) as [E|E]; rewrite E in Hoy; [exact Hoy|contradiction]. }
+  split.
+  - intros x Hx. rewrite (vis_data d' _ _ Hdata).
+    assert (Hsx : req_shape (it_req x) = true) by (apply Hshape; apply in_or_app; left; apply in_map; exact Hx).
+    destruct (quiet (it_req x)) eqn:Hq.
+    + rewrite orb_true_r. apply vis_all. rewrite (quiet_no_ops _ Hsx Hq). intros o [].
+    + rewrite orb_false_r. destruct (it_committed x) eqn:Hc.
+      * apply vis_all. intros o Ho. apply reflected_apply_ops_in; [exact HndL|].
+        rewrite HL. apply in_flat_map. exists x. split; [exact Hx|]. unfold G. rewrite Hc, (eff_ops_full sk _ Hok Hq). exact Ho.
+      * apply vis_none; [apply loud_has_ops; assumption|]. intros o Ho.
+        rewrite reflected_apply_ops_notin.
+        -- apply Hfresh. apply in_or_app. left. apply in_flat_map. exists x. split; assumption.
+        -- intros Hk. apply in_map_iff in Hk. destruct Hk as [o' [Ek Ho']].
+           destruct (HinL o' Ho') as [y [Hy [Hcy Hoy]]].
+           assert (HoA : In o A) by (apply in_flat_map; exists x; split; assumption).
+           assert (Ho'A : In o' A) by (apply in_flat_map; exists y; split; assumption).
+           assert (o' = o) by (eapply (NoDup_map_in_inj _ _ op_key (A ++ U)); [exact Hnd|apply in_or_app; left; exact Ho'A|apply in_or_app; left; exact HoA|exact Ek]).
+           subst o'. destruct (NoDup_flat_map_same _ _ F items x y o HA Hx Hy Ho Hoy) as [E|[]].
+           subst y. congruence.
+  - intros q Hq. rewrite (vis_data d' _ _ Hdata).
+    assert (Hsq : req_shape q = true) by (apply Hshape; apply in_or_app; right; exact Hq).
+    destruct (quiet q) eqn:Hqq.
+    + apply vis_all. rewrite (quiet_no_ops _ Hsq Hqq). intros o [].
+    + apply vis_none; [apply loud_has_ops; assumption|]. intros o Ho.
+      assert (HoU : In o U) by (apply in_flat_map; exists q; split; assumption).
+      rewrite reflected_apply_ops_notin; [apply Hfresh; apply in_or_app; right; exact HoU|].
+      intros Hk. apply in_map_iff in Hk. destruct Hk as [o' [Ek Ho']].
+      destruct (HinL o' Ho') as [y [Hy [Hcy Hoy]]].
+      assert (Ho'A : In o' A) by (apply in_flat_map; exists y; split; assumption).
+      assert (o' = o) by (eapply (NoDup_map_in_inj _ _ op_key (A ++ U)); [exact Hnd|apply in_or_app; left; exact Ho'A|apply in_or_app; right; exact HoU|exact Ek]).
+      subst o'. exact (Hdisj o Ho'A HoU).
+Qed.
+
+(* ------------------------------------------------------------------ acknowledgements *)
+Definition ack_sound (x : item) : Prop :=
+  (it_ack x = Some true -> it_committed x = true) /\
+  (it_ack x = Some false -> it_committed x = false) /\
+  (it_ack x <> None -> quiet (it_req x) = false).
+
+Lemma route_code_inj : forall a b, route_code a = route_code b -> a = b.
+Proof. intros a b H. destruct a; destruct b; try reflexivity; vm_compute in H; discriminate. Qed.
+
+Lemma ack_req_sound : forall sk ok au r seen,
+  sk_ok sk = true -> (au = false -> seen = true) -> seen && needs r = false ->
+  ack_sound (r, fst (ack_req sk ok au r), ok) /\
+  (snd (ack_req sk ok au r) = false -> seen || revokes r = true).
+Proof.
+  intros sk ok au r seen Hok Hau Hk.
+  destruct (sk_ok_arm sk (r_kind r) Hok) as [a [Ha [Hkind Hg]]].
+  unfold ack_req. rewrite Ha. rewrite (ag_pol_ok a Hg), (ag_pol_err a Hg). cbn [negb].
+  assert (Hroute : (if ok then a_ok a else a_err a) = a_ok a).
+  { destruct ok; [reflexivity|]. symmetry. apply route_code_inj. apply (ag_route a Hg). }
+  rewrite Hroute.
+  assert (Hcar : (if ok then true else false) = ok) by (destruct ok; reflexivity). rewrite Hcar.
+  assert (Hloud : a_ok a = RDirect \/ a_ok a = RAuth -> quiet r = false).
+  { intros Hr. unfold quiet. destruct (r_kind r) eqn:Ek; try reflexivity;
+      (destruct (ag_quiet a Hg) as [E|E]; [rewrite Hkind; auto|rewrite E in Hr; destruct Hr; discriminate|rewrite E in Hr; destruct Hr; discriminate]). }
+  unfold ack_sound, it_ack, it_committed, it_req. cbn [fst snd].
+  destruct (a_ok a) eqn:Er; cbn [fst snd].
+  - (* RDirect *) split; [|intros E; rewrite (Hau E); reflexivity].
+    split; [intros E; inversion E; reflexivity|split; [intros E; inversion E; reflexivity|intros _; apply Hloud; auto]].
+  - (* RAuth *) destruct ok; cbn [fst snd].
+    + destruct (r_auth r) as [| |n rv] eqn:Eau; cbn [fst snd].
+      * split; [|intros E; rewrite (Hau E); reflexivity].
+        split; [auto|split; [discriminate|intros _; apply Hloud; auto]].
+      * split; [|intros E; rewrite (Hau E); reflexivity].
+        split; [auto|split; [discriminate|intros _; apply Hloud; auto]].
+      * destruct (n && negb au) eqn:En; cbn [fst snd].
+        -- exfalso. apply andb_true_iff in En. destruct En as [En1 En2]. apply negb_true_iff in En2.
+           rewrite (Hau En2) in Hk. unfold needs in Hk. rewrite Eau, En1 in Hk. discriminate.
+        -- split; [split; [auto|split; [discriminate|intros _; apply Hloud; auto]]|].
+           unfold revokes. rewrite Eau. destruct rv; [intros _; apply orb_true_r|].
+           intros E. rewrite (Hau E). reflexivity.
+    + split; [|intros E; rewrite (Hau E); reflexivity].
+      split; [discriminate|split; [auto|intros _; apply Hloud; auto]].
+  - (* RDb *) split; [|intros E; rewrite (Hau E); reflexivity]. split; [discriminate|split; [discriminate|intros H; contradiction]].
+  - (* RNone *) split; [|intros E; rewrite (Hau E); reflexivity]. split; [discriminate|split; [discriminate|intros H; contradiction]].
+Qed.
+
+Lemma ack_batch_sound : forall sk ok b rest au seen,
+  sk_ok sk = true -> k2 seen (b ++ rest) = false -> (au = false -> seen = true) ->
+  Forall ack_sound (fst (ack_batch sk ok au b)) /\
+  exists seen', k2 seen' rest = false /\ (snd (ack_batch sk ok au b) = false -> seen' = true).
+Proof.
+  intros sk ok. induction b as [|r b IH]; intros rest au seen Hok Hk Hau; cbn [ack_batch app] in *.
+  - split; [constructor|]. exists seen. split; assumption.
+  - cbn [k2] in Hk. apply orb_false_iff in Hk. destruct Hk as [Hk1 Hk2].
+    pose proof (ack_req_sound sk ok au r seen Hok Hau Hk1) as [Hs Hau1].
+    destruct (ack_req sk ok au r) as [a au1]. cbn [fst snd] in Hs, Hau1.
+    specialize (IH rest au1 (seen || revokes r) Hok Hk2 Hau1).
+    destruct (ack_batch sk ok au1 b) as [l au2]. cbn [fst snd] in *.
+    destruct IH as [IH1 IH2]. split; [constructor; assumption|exact IH2].
+Qed.
+
+Theorem run_batches_acks : forall sk sched bs n st au seen,
+  sk_ok sk = true -> k2 seen (concat bs) = false -> (au = false -> seen = true) ->
+  Forall ack_sound (rr_items (run_batches sk sched n st au bs)).
+Proof.
+  intros sk sched. induction bs as [|b bs IH]; intros n st au seen Hok Hk Hau; cbn [run_batches concat] in *; [constructor|].
+  destruct (run_batch sk sched n st b) as [[[st' o] n'] last].
+  destruct o as [ok|c].
+  - pose proof (ack_batch_sound sk ok b (concat bs) au seen Hok Hk Hau) as [H1 [seen' [H2 H3]]].
+    destruct (ack_batch sk ok au b) as [items au']. cbn [fst snd rr_items] in *.
+    apply Forall_app. split; [exact H1|]. eapply IH; eauto.
+  - cbn [rr_items]. apply Forall_app. split; apply Forall_forall; intros x Hx; apply in_map_iff in Hx;
+      destruct Hx as [q [E _]]; subst x; unfold ack_sound, it_ack; cbn [fst snd];
+      (split; [discriminate|split; [discriminate|intros H; contradiction]]).
+Qed.
+
+(* ------------------------------------------------------------------ the boolean log checks *)
+Lemma filter_none : forall A (f : A -> N) c l, ~ In c (map f l) -> filter (fun x => N.eqb (f x) c) l = [].
+Proof.
+  induction l as [|x l IH]; intros H; cbn [filter map In] in *; [reflexivity|].
+  assert (N.eqb (f x) c = false) as -> by (apply N.eqb_neq; tauto). apply IH. tauto.
+Qed.
+Lemma count_outside_cells : forall d c, ~ In c (cells d) -> count_cell d c = 0%N /\ nlookup c (d_log d) = None.
+Proof.
+  intros d c H. unfold cells in H. split.
+  - unfold count_cell.
+    rewrite (filter_none _ (fun kv : rkey * N => fst (fst kv)) c (d_rows d)) by (intros Hi; apply H; apply in_or_app; left; exact Hi).
+    rewrite (filter_none _ (fun k : rkey => fst k) c (d_tombs d)) by (intros Hi; apply H; apply in_or_app; right; apply in_or_app; left; exact Hi).
+    reflexivity.
+  - apply nlookup_not_in. intros Hi. apply H. apply in_or_app. right. apply in_or_app. right. exact Hi.
+Qed.
+Lemma loginv_b_sound : forall d, loginv_b d = true -> LogInv d.
+Proof.
+  intros d H c Hc. unfold cellinv. destruct (in_dec N.eq_dec c (cells d)) as [Hi|Hn].
+  - unfold loginv_b in H. rewrite forallb_forall in H. specialize (H c Hi). unfold cell_inv in H.
+    assert (N.eqb c 0 = false) as E by (apply N.eqb_neq; exact Hc). rewrite E in H. cbn [orb] in H.
+    destruct (nlookup c (d_log d)) as [[dirty n]|].
+    + apply orb_true_iff in H. destruct H as [H|H]; [left; exact H|right; apply N.eqb_eq; exact H].
+    + apply N.eqb_eq. exact H.
+  - destruct (count_outside_cells d c Hn) as [H1 H2]. rewrite H2. exact H1.
+Qed.
+Lemma loginv_b_complete : forall d, LogInv d -> loginv_b d = true.
+Proof.
+  intros d H. unfold loginv_b. apply forallb_forall. intros c _. unfold cell_inv.
+  destruct (N.eqb c 0) eqn:E; [reflexivity|]. cbn [orb]. apply N.eqb_neq in E. specialize (H c E). unfold cellinv in H.
+  destruct (nlookup c (d_log d)) as [[dirty n]|].
+  - destruct H as [H|H]; [rewrite H; reflexivity|rewrite H, N.eqb_refl; apply orb_true_r].
+  - rewrite H. reflexivity.
+Qed.
+Lemma consistent_b_complete : forall d, Consistent d -> consistent_b d = true.
+Proof.
+  intros d H. unfold consistent_b. apply forallb_forall. intros c _. unfold cell_cons.
+  destruct (N.eqb c 0) eqn:E; [reflexivity|]. cbn [orb]. apply N.eqb_neq in E. specialize (H c E). unfold cellcons in H.
+  destruct (nlookup c (d_log d)) as [[dirty n]|].
+  - destruct H as [H1 H2]. rewrite H1, H2, N.eqb_refl. reflexivity.
+  - rewrite H. reflexivity.
+Qed.
+Lemma covers_sound : forall sk r, covers sk r = true -> Covers sk r.
+Proof.
+  intros sk r H o Ho. unfold covers in H. rewrite forallb_forall in H. specialize (H o Ho).
+  apply orb_true_iff in H. destruct H as [H|H]; [left; apply N.eqb_eq; exact H|right].
+  apply existsb_exists in H. destruct H as [c [Hc E]]. apply N.eqb_eq in E. rewrite E. exact Hc.
+Qed.
+
+(* ------------------------------------------------------------------ the observation vector *)
+Lemma triples_flat : forall A (fa fl fv : A -> Z) l rest,
+  triples (length l) (flat_map (fun x => [fa x; fl x; fv x]) l ++ rest) = Some (map (fun x => (fa x, fl x, fv x)) l, rest).
+Proof.
+  induction l as [|x l IH]; intros rest; cbn [length flat_map app triples map]; [reflexivity|].
+  rewrite IH. reflexivity.
+Qed.
+Lemma triples_app : forall n1 n2 obs ts1 obs' ts2 rest,
+  triples n1 obs = Some (ts1, obs') -> triples n2 obs' = Some (ts2, rest) ->
+  triples (n1 + n2) obs = Some (ts1 ++ ts2, rest).
+Proof.
+  induction n1 as [|n1 IH]; intros n2 obs ts1 obs' ts2 rest H1 H2; cbn [triples plus] in *.
+  - inversion H1; subst. exact H2.
+  - destruct obs as [|a [|l [|v t]]]; try discriminate.
+    destruct (triples n1 t) as [[ts tl]|] eqn:E; [|discriminate]. inversion H1; subst.
+    rewrite (IH n2 t ts obs' ts2 rest E H2). reflexivity.
+Qed.
+
+Lemma req_ok_item : forall (a : option bool) (alive : bool) (v : Z) (committed qt : bool),
+  v = (if committed || qt then 1 else 0) ->
+  (a = Some true -> committed = true) ->
+  (a = Some false -> committed = false) ->
+  (a <> None -> qt = false) ->
+  req_ok (ack_code a, (if alive then v else -1), v) = true.
+Proof.
+  intros a alive v committed qt Hv H1 H2 H3. subst v.
+  destruct a as [[|]|].
+  - rewrite (H1 eq_refl). destruct alive; reflexivity.
+  - rewrite (H2 eq_refl), (H3 ltac:(discriminate)). destruct alive; reflexivity.
+  - destruct (committed || qt); destruct alive; reflexivity.
+Qed.
+
+(* ------------------------------------------------------------------ the property, outside the known class *)
+Theorem spec_outside_known : forall c,
+  wf_case c = true -> known_C13 c = [] -> spec_C13 c (run_C13 c) = true.
+Proof.
+  intros [|init batches unsent f] Hwf Hk; [reflexivity|].
+  cbn [wf_case] in Hwf.
+  apply andb_true_iff in Hwf. destruct Hwf as [Hwf Hinv0].
+  apply andb_true_iff in Hwf. destruct Hwf as [Hwf Hshape].
+  apply andb_true_iff in Hwf. destruct Hwf as [Hwf Hcov].
+  apply andb_true_iff in Hwf. destruct Hwf as [Hnd Hfresh].
+  cbn [known_C13] in Hk. destruct (k2 false (concat batches)) eqn:Hk2; [discriminate|]. clear Hk.
+  pose proof code_skeleton_ok as Hok.
+  set (sk := code_skeleton) in *. set (d0 := init_disk init) in *.
+  set (st0 := {| w_disk := d0; w_stuck := false |}).
+  pose proof (run_batches_structure sk (sched_of f) batches 0%N st0 true) as Hstr. cbv zeta in Hstr.
+  pose proof (run_batches_acks sk (sched_of f) batches 0%N st0 true false Hok Hk2 ltac:(discriminate)) as Hacks.
+  assert (Hlog : LogInv (w_disk (rr_state (run_batches sk (sched_of f) 0%N st0 true batches)))).
+  { apply run_batches_loginv; [|apply loginv_b_sound; exact Hinv0].
+    intros r Hr. apply covers_sound. rewrite forallb_forall in Hcov. apply Hcov. exact Hr. }
+  unfold run_C13, run_model. fold sk. fold d0. fold st0.
+  set (r := run_batches sk (sched_of f) 0%N st0 true batches) in *.
+  destruct Hstr as [Hreqs Hdata]. cbn [w_disk] in Hdata.
+  set (d' := w_disk (rr_state r)) in *. set (dr := restart (rr_state r)).
+  assert (Hdr : data_eq dr d') by (apply data_eq_recompute).
+  (* visibility *)
+  rewrite <- Hreqs in Hnd, Hfresh, Hshape.
+  pose proof (vis_final sk (rr_items r) unsent d0 d' Hok Hdata
+                (nodup_keys_NoDup _ Hnd)) as Hvis.
+  assert (Hfresh' : forall o, In o (flat_map req_ops (map it_req (rr_items r) ++ unsent)) -> reflected d0 o = false).
+  { intros o Ho. rewrite forallb_forall in Hfresh. specialize (Hfresh o Ho). apply negb_true_iff in Hfresh. exact Hfresh. }
+  assert (Hshape' : forall q, In q (map it_req (rr_items r) ++ unsent) -> req_shape q = true).
+  { intros q Hq. rewrite forallb_forall in Hshape. apply Hshape. exact Hq. }
+  specialize (Hvis Hfresh' Hshape'). destruct Hvis as [Hvis1 Hvis2].
+  (* parse the vector *)
+  cbn [spec_C13].
+  assert (Hlen : length (concat batches) = length (rr_items r)) by (rewrite <- Hreqs; apply map_length).
+  rewrite Hlen.
+  set (live := fun q : req => if rr_alive r then vis d' q else -1).
+  set (tail7 := [zb (rr_alive r); zn (if rr_alive r then rr_hits r else rr_last r); zb (loginv_b d'); zb (consistent_b dr); 1; 1]).
+  rewrite <- !app_assoc.
+  pose proof (triples_flat item (fun x => ack_code (it_ack x)) (fun x => live (it_req x)) (fun x => vis dr (it_req x)) (rr_items r)
+                (flat_map (fun q => [0; live q; vis dr q]) unsent ++ tail7 ++ [zb (wf_case (CRun init batches unsent f))])) as T1.
+  pose proof (triples_flat req (fun _ => 0) live (vis dr) unsent (tail7 ++ [zb (wf_case (CRun init batches unsent f))])) as T2.
+  rewrite (triples_app _ _ _ _ _ _ _ T1 T2).
+  unfold tail7. cbn [app].
+  assert (Hl1 : loginv_b d' = true) by (apply loginv_b_complete; exact Hlog).
+  assert (Hl2 : consistent_b dr = true) by (apply consistent_b_complete; apply recompute_consistent; exact Hlog).
+  rewrite Hl1, Hl2. cbn [zb Z.eqb Pos.eqb andb]. rewrite !andb_true_r.
+  rewrite forallb_app. apply andb_true_iff. split; apply forallb_forall; intros t Ht; apply in_map_iff in Ht; destruct Ht as [x [E Hx]]; subst t.
+  - rewrite Forall_forall in Hacks. destruct (Hacks x Hx) as [Ha1 [Ha2 Ha3]].
+    unfold live. rewrite (vis_data dr d' _ Hdr).
+    apply (req_ok_item (it_ack x) (rr_alive r) (vis d' (it_req x)) (it_committed x) (quiet (it_req x))); auto.
+  - unfold live. rewrite (vis_data dr d' _ Hdr). rewrite (Hvis2 x Hx).
+    destruct (quiet x); destruct (rr_alive r); reflexivity.
+Qed.
